@@ -15,6 +15,7 @@ func Lookalikes(level int) []*tv.Package {
 		"type Pt struct {\n\tX uint64\n\tY uint64\n}",
 		"type Emb struct {\n\tPt\n\tZ uint64\n}",
 		"type Num uint64",
+		"type List []uint64",
 		"type Shape interface {\n\tArea() uint64\n}",
 		"func (p Pt) Area() uint64 {\n\treturn p.X * p.Y\n}",
 	}
@@ -99,6 +100,11 @@ func Lookalikes(level int) []*tv.Package {
 	add("builtin/min", "func FN(x uint64, y uint64) uint64 {\n\treturn min(x, y)\n}")
 	add("builtin/max", "func FN(x uint64, y uint64) uint64 {\n\treturn max(x, y)\n}")
 	add("builtin/clear", "func FN(m map[uint64]uint64) uint64 {\n\tclear(m)\n\treturn uint64(len(m))\n}")
+	add("builtin/clear-slice", "func FN(a []uint64) uint64 {\n\tclear(a)\n\tif uint64(len(a)) > 0 {\n\t\treturn a[0]\n\t}\n\treturn 1\n}")
+	add("named/map-elem-assign", "type FNSet map[uint64]bool\n\nfunc FN(k uint64) bool {\n\ts := make(FNSet)\n\ts[k] = true\n\treturn s[k]\n}")
+	add("named/slice-elem-assign", "func FN(x uint64) uint64 {\n\tl := make(List, 2)\n\tl[1] = x\n\treturn l[1]\n}")
+	add("named/slice-empty-literal", "func FN() uint64 {\n\tl := List{}\n\treturn uint64(len(l))\n}")
+	add("named/slice-singleton-literal", "func FN(x uint64) uint64 {\n\tl := List{x}\n\treturn l[0]\n}")
 	add("builtin/cap-of-make", "func FN() uint64 {\n\ta := make([]uint64, 2)\n\treturn uint64(cap(a))\n}")
 	add("builtin/new-basic", "func FN(x uint64) uint64 {\n\tp := new(uint64)\n\t*p = x\n\treturn *p\n}")
 	add("builtin/delete-missing", "func FN(m map[uint64]uint64) uint64 {\n\tdelete(m, 5)\n\tdelete(m, 5)\n\treturn uint64(len(m))\n}")
@@ -131,6 +137,13 @@ func Lookalikes(level int) []*tv.Package {
 		{"make", "func make(x uint64) uint64 {\n\treturn x + 5\n}", "make(x)"},
 		{"new", "func new(x uint64) uint64 {\n\treturn x + 6\n}", "new(x)"},
 		{"string", "func string(x uint64) uint64 {\n\treturn x + 6\n}", "string(x)"},
+		{"clear", "func clear(a []uint64) uint64 {\n\treturn 5\n}", "clear(a)"},
+		{"min", "func min(x uint64, y uint64) uint64 {\n\treturn x + y\n}", "min(x, x)"},
+		{"max", "func max(x uint64, y uint64) uint64 {\n\treturn x + y + 1\n}", "max(x, x)"},
+		{"close", "func close(x uint64) uint64 {\n\treturn x + 9\n}", "close(x)"},
+		{"recover", "func recover() uint64 {\n\treturn 3\n}", "recover() + x"},
+		{"print", "func print(x uint64) uint64 {\n\treturn x + 4\n}", "print(x)"},
+		{"bool", "func bool(x uint64) uint64 {\n\treturn x + 8\n}", "bool(x)"},
 	} {
 		p := &tv.Package{Name: "shadow" + n.name, Files: map[string]string{}}
 		src := "package " + p.Name + "\n\n" + n.decl + "\n\nfunc F(a []" + uintT(n.name) + ", x " + uintT(n.name) + ") " + uintT(n.name) + " {\n\treturn " + n.use + "\n}\n"
